@@ -14,6 +14,14 @@ pub fn split_token(token: &str) -> (String, Vec<String>, String) {
     (jwt, discs, parts[parts.len() - 1].to_string())
 }
 
+/// a presentation prefix `jwt~d1~…~dn~` up to the order of its disclosures (which no property fixes)
+pub fn canon_prefix(p: &str) -> (String, Vec<String>, bool) {
+    let parts: Vec<&str> = p.split('~').collect();
+    let mut ds: Vec<String> = parts[1..parts.len().max(2) - 1].iter().map(|s| s.to_string()).collect();
+    ds.sort();
+    (parts[0].to_string(), ds, p.ends_with('~'))
+}
+
 pub fn tree_op(ctx: &mut Ctx, alg: &str, tree: &Node, root_sd_actual: Option<&Value>, shows: &[Vec<usize>]) -> Value {
     let mut wire = tree.to_wire();
     if let Some(sd) = root_sd_actual {
